@@ -4,6 +4,8 @@ import RsomeV.Drv.Robust
 import RsomeV.Drv.Partition
 import RsomeV.Drv.Curv
 import RsomeV.Drv.NdArray
+import RsomeV.Drv.AtomsSoc
+import RsomeV.Drv.AtomsExp
 open Lean
 namespace RsomeV.Drv
 /-- every operation of the line protocol -/
@@ -29,5 +31,13 @@ def dispatch (op : String) (j : Json) : Except String Json :=
   | "nd_sum_axis" => opNdSumAxis j
   | "nd_concat" => opNdConcat j
   | "nd_diag" => opNdDiag j
+  | "atom_encode" =>
+      (match fldD j "xtype" Json.null with
+       | .str x => if x ∈ ["A", "M", "I", "E", "S", "Q"] then opAtomEncode j else opAtomEncodeExp j
+       | _ => opAtomEncodeExp j)
+  | "atoms_exp_encode" => opAtomsExpEncode j
+  | "rsocone_encode" => opRsoconeEncode j
+  | "fold_bounds" => opFoldBounds j
+  | "vtype_vector" => opVtypeVector j
   | _ => throw s!"unknown op {op}"
 end RsomeV.Drv
